@@ -1,1 +1,893 @@
-//! refpdf::pngenc — not written yet.
+//! refpdf::pngenc — a PNG *encoder* written from the PNG specification (W3C PNG, 2nd
+//! edition / ISO 15948; RFC 2083), plus the image-XObject sample interpreter of
+//! ISO 32000-1 §8.9.5 that the C24 check needs to read an embedded image back.
+//! Nothing here is derived from the library under test.
+//!
+//! Encoder coverage: the 15 valid colour-type/bit-depth pairs, row filters 0–4 chosen per
+//! row, Adam7 interlacing, PLTE, tRNS (grey / RGB colour key, palette alpha table), IDAT
+//! split into several chunks, zlib through `flate2`, CRC-32 per chunk (own table).
+//! Validation (unit tests at the bottom): every file written is decoded by the third-party
+//! `png` crate and must give back the samples / RGBA values that were asked for.
+
+use crate::syntax::{Dict, Obj};
+use std::io::Write;
+
+// ------------------------------------------------------------------------------------
+// PNG encoder
+// ------------------------------------------------------------------------------------
+
+/// tRNS content (PNG §11.3.2.1).
+#[derive(Clone, Debug, PartialEq)]
+pub enum Trns {
+    /// colour type 0: one grey sample value (in the image's own bit depth) is transparent
+    Gray(u16),
+    /// colour type 2: one RGB triple is transparent
+    Rgb(u16, u16, u16),
+    /// colour type 3: alpha per palette entry; may be shorter than the palette
+    Palette(Vec<u8>),
+}
+
+/// How the filter type of each scanline is chosen.
+#[derive(Clone, Debug, PartialEq)]
+pub enum RowFilter {
+    /// the same filter type (0..=4) on every row
+    Fixed(u8),
+    /// row `y` of each (sub)image uses `(y + offset) % 5`
+    Cycle(u8),
+    /// per row, the type with the smallest sum of absolute signed residuals (§12.8 heuristic)
+    MinSum,
+}
+
+#[derive(Clone, Debug)]
+pub struct PngSpec {
+    pub width: u32,
+    pub height: u32,
+    /// 0 grey, 2 RGB, 3 palette, 4 grey+alpha, 6 RGB+alpha
+    pub color_type: u8,
+    pub bit_depth: u8,
+    pub interlace: bool,
+    /// PLTE entries (required for colour type 3; written for 2/6 too when non-empty)
+    pub palette: Vec<[u8; 3]>,
+    pub trns: Option<Trns>,
+    pub filter: RowFilter,
+    /// row-major samples, `channels` per pixel, each `< 2^bit_depth` (palette: the index)
+    pub samples: Vec<u16>,
+    /// maximum IDAT chunk payload; 0 = a single IDAT
+    pub idat_chunk: usize,
+    /// zlib level 0..=9
+    pub level: u32,
+    /// write pHYs + tEXt before PLTE/IDAT and a tEXt after the last IDAT
+    pub ancillary: bool,
+}
+
+pub const VALID_PAIRS: [(u8, u8); 15] = [
+    (0, 1), (0, 2), (0, 4), (0, 8), (0, 16),
+    (2, 8), (2, 16),
+    (3, 1), (3, 2), (3, 4), (3, 8),
+    (4, 8), (4, 16),
+    (6, 8), (6, 16),
+];
+
+pub fn channels(color_type: u8) -> usize {
+    match color_type {
+        0 | 3 => 1,
+        2 => 3,
+        4 => 2,
+        6 => 4,
+        _ => panic!("invalid colour type {color_type}"),
+    }
+}
+
+/// CRC-32 (ISO 3309 / PNG annex D), table driven.
+pub fn crc32(bytes: &[u8]) -> u32 {
+    static TABLE: std::sync::OnceLock<[u32; 256]> = std::sync::OnceLock::new();
+    let t = TABLE.get_or_init(|| {
+        let mut t = [0u32; 256];
+        for n in 0..256u32 {
+            let mut c = n;
+            for _ in 0..8 {
+                c = if c & 1 != 0 { 0xEDB8_8320 ^ (c >> 1) } else { c >> 1 };
+            }
+            t[n as usize] = c;
+        }
+        t
+    });
+    let mut c = 0xFFFF_FFFFu32;
+    for &b in bytes {
+        c = t[((c ^ b as u32) & 0xFF) as usize] ^ (c >> 8);
+    }
+    c ^ 0xFFFF_FFFF
+}
+
+fn chunk(out: &mut Vec<u8>, ty: &[u8; 4], data: &[u8]) {
+    out.extend_from_slice(&(data.len() as u32).to_be_bytes());
+    let start = out.len();
+    out.extend_from_slice(ty);
+    out.extend_from_slice(data);
+    let c = crc32(&out[start..]);
+    out.extend_from_slice(&c.to_be_bytes());
+}
+
+/// Pack one row of samples (`n_px` pixels × `ch` channels) into scanline bytes (§7.2):
+/// samples MSB first, sub-byte samples packed left to right from the high bits, rows
+/// padded with zero bits to a byte boundary, 16-bit samples big-endian.
+pub fn pack_row(samples: &[u16], depth: u8) -> Vec<u8> {
+    match depth {
+        16 => samples.iter().flat_map(|s| s.to_be_bytes()).collect(),
+        8 => samples.iter().map(|&s| s as u8).collect(),
+        1 | 2 | 4 => {
+            let per = 8 / depth as usize;
+            let mut out = vec![0u8; samples.len().div_ceil(per)];
+            for (i, &s) in samples.iter().enumerate() {
+                debug_assert!(s < (1 << depth));
+                let shift = 8 - depth as usize * (i % per + 1);
+                out[i / per] |= (s as u8) << shift;
+            }
+            out
+        }
+        _ => panic!("invalid bit depth {depth}"),
+    }
+}
+
+/// The scanlines of the whole (non-interlaced) image, packed, without filter bytes.
+pub fn packed_rows(spec: &PngSpec) -> Vec<Vec<u8>> {
+    let ch = channels(spec.color_type);
+    let w = spec.width as usize;
+    (0..spec.height as usize).map(|y| pack_row(&spec.samples[y * w * ch..(y + 1) * w * ch], spec.bit_depth)).collect()
+}
+
+fn paeth(a: u8, b: u8, c: u8) -> u8 {
+    // §9.4: p = a + b - c; nearest of a, b, c to p, ties in the order a, b, c
+    let (ia, ib, ic) = (a as i32, b as i32, c as i32);
+    let p = ia + ib - ic;
+    let (pa, pb, pc) = ((p - ia).abs(), (p - ib).abs(), (p - ic).abs());
+    if pa <= pb && pa <= pc {
+        a
+    } else if pb <= pc {
+        b
+    } else {
+        c
+    }
+}
+
+/// Filter one scanline (§9.2). `bpp` = bytes per complete pixel, rounded up to 1.
+pub fn filter_row(ft: u8, row: &[u8], prior: &[u8], bpp: usize) -> Vec<u8> {
+    let mut out = Vec::with_capacity(row.len());
+    for x in 0..row.len() {
+        let a = if x >= bpp { row[x - bpp] } else { 0 };
+        let b = prior[x];
+        let c = if x >= bpp { prior[x - bpp] } else { 0 };
+        let pred = match ft {
+            0 => 0,
+            1 => a,
+            2 => b,
+            3 => ((a as u16 + b as u16) / 2) as u8,
+            4 => paeth(a, b, c),
+            _ => panic!("invalid filter type {ft}"),
+        };
+        out.push(row[x].wrapping_sub(pred));
+    }
+    out
+}
+
+fn filter_image(rows: &[Vec<u8>], bpp: usize, choice: &RowFilter, out: &mut Vec<u8>) {
+    if rows.is_empty() {
+        return;
+    }
+    let mut prior = vec![0u8; rows[0].len()];
+    for (y, row) in rows.iter().enumerate() {
+        let ft = match choice {
+            RowFilter::Fixed(f) => *f,
+            RowFilter::Cycle(o) => ((y + *o as usize) % 5) as u8,
+            RowFilter::MinSum => (0..5u8)
+                .min_by_key(|f| filter_row(*f, row, &prior, bpp).iter().map(|&b| (b as i8).unsigned_abs() as u64).sum::<u64>())
+                .unwrap(),
+        };
+        out.push(ft);
+        out.extend(filter_row(ft, row, &prior, bpp));
+        prior = row.clone();
+    }
+}
+
+/// Adam7 passes (§8.2): (x start, y start, x step, y step).
+pub const ADAM7: [(usize, usize, usize, usize); 7] =
+    [(0, 0, 8, 8), (4, 0, 8, 8), (0, 4, 4, 8), (2, 0, 4, 4), (0, 2, 2, 4), (1, 0, 2, 2), (0, 1, 1, 2)];
+
+/// Encode to a complete PNG datastream. Panics on a spec that is not a valid PNG
+/// (wrong pair, sample out of range, palette index beyond PLTE, …) — the generator must
+/// only ask for valid files.
+pub fn encode(spec: &PngSpec) -> Vec<u8> {
+    assert!(VALID_PAIRS.contains(&(spec.color_type, spec.bit_depth)), "invalid colour type / bit depth pair");
+    assert!(spec.width > 0 && spec.height > 0);
+    let ch = channels(spec.color_type);
+    let (w, h) = (spec.width as usize, spec.height as usize);
+    assert_eq!(spec.samples.len(), w * h * ch, "sample count");
+    let max = if spec.bit_depth == 16 { u16::MAX as u32 } else { (1u32 << spec.bit_depth) - 1 };
+    assert!(spec.samples.iter().all(|&s| s as u32 <= max), "sample exceeds bit depth");
+    if spec.color_type == 3 {
+        assert!(!spec.palette.is_empty() && spec.palette.len() <= (1 << spec.bit_depth), "PLTE size");
+        assert!(spec.samples.iter().all(|&s| (s as usize) < spec.palette.len()), "palette index beyond PLTE");
+    } else {
+        assert!(spec.color_type == 2 || spec.color_type == 6 || spec.palette.is_empty(), "PLTE not allowed for grey");
+    }
+    match (&spec.trns, spec.color_type) {
+        (None, _) => {}
+        (Some(Trns::Gray(v)), 0) => assert!(*v as u32 <= max),
+        (Some(Trns::Rgb(r, g, b)), 2) => assert!([r, g, b].iter().all(|v| **v as u32 <= max)),
+        (Some(Trns::Palette(t)), 3) => assert!(!t.is_empty() && t.len() <= spec.palette.len()),
+        _ => panic!("tRNS form does not fit the colour type"),
+    }
+
+    let mut out = Vec::new();
+    out.extend_from_slice(b"\x89PNG\r\n\x1a\n");
+    let mut ihdr = Vec::new();
+    ihdr.extend_from_slice(&spec.width.to_be_bytes());
+    ihdr.extend_from_slice(&spec.height.to_be_bytes());
+    ihdr.extend_from_slice(&[spec.bit_depth, spec.color_type, 0, 0, spec.interlace as u8]);
+    chunk(&mut out, b"IHDR", &ihdr);
+    if spec.ancillary {
+        // 2835 px/m in both directions, unit metre; and a Latin-1 text chunk
+        let mut phys = Vec::new();
+        phys.extend_from_slice(&2835u32.to_be_bytes());
+        phys.extend_from_slice(&2835u32.to_be_bytes());
+        phys.push(1);
+        chunk(&mut out, b"pHYs", &phys);
+        chunk(&mut out, b"tEXt", b"Comment\0IDAT IEND PLTE tRNS inside a text chunk");
+    }
+    if !spec.palette.is_empty() {
+        let p: Vec<u8> = spec.palette.iter().flatten().copied().collect();
+        chunk(&mut out, b"PLTE", &p);
+    }
+    match &spec.trns {
+        None => {}
+        Some(Trns::Gray(v)) => chunk(&mut out, b"tRNS", &v.to_be_bytes()),
+        Some(Trns::Rgb(r, g, b)) => {
+            let d: Vec<u8> = [r, g, b].iter().flat_map(|v| v.to_be_bytes()).collect();
+            chunk(&mut out, b"tRNS", &d);
+        }
+        Some(Trns::Palette(t)) => chunk(&mut out, b"tRNS", t),
+    }
+
+    // filtered scanlines
+    let bpp = (ch * spec.bit_depth as usize).div_ceil(8).max(1);
+    let mut raw = Vec::new();
+    if !spec.interlace {
+        filter_image(&packed_rows(spec), bpp, &spec.filter, &mut raw);
+    } else {
+        for &(x0, y0, dx, dy) in &ADAM7 {
+            if x0 >= w || y0 >= h {
+                continue; // empty pass: no scanlines at all, not even filter bytes
+            }
+            let rows: Vec<Vec<u8>> = (y0..h)
+                .step_by(dy)
+                .map(|y| {
+                    let mut s = Vec::new();
+                    for x in (x0..w).step_by(dx) {
+                        let i = (y * w + x) * ch;
+                        s.extend_from_slice(&spec.samples[i..i + ch]);
+                    }
+                    pack_row(&s, spec.bit_depth)
+                })
+                .collect();
+            filter_image(&rows, bpp, &spec.filter, &mut raw);
+        }
+    }
+    let mut z = flate2::write::ZlibEncoder::new(Vec::new(), flate2::Compression::new(spec.level.min(9)));
+    z.write_all(&raw).unwrap();
+    let z = z.finish().unwrap();
+    if spec.idat_chunk == 0 {
+        chunk(&mut out, b"IDAT", &z);
+    } else {
+        for part in z.chunks(spec.idat_chunk) {
+            chunk(&mut out, b"IDAT", part);
+        }
+    }
+    if spec.ancillary {
+        chunk(&mut out, b"tEXt", b"Software\0refpdf::pngenc");
+    }
+    chunk(&mut out, b"IEND", &[]);
+    out
+}
+
+/// Pixels in a common RGBA form: `depth` is 8 or 16 and applies to all four channels.
+#[derive(Clone, Debug, PartialEq)]
+pub struct Rgba {
+    pub width: u32,
+    pub height: u32,
+    pub depth: u8,
+    pub px: Vec<[u16; 4]>,
+}
+
+/// What a conforming decoder that expands palette, sub-byte grey and tRNS must deliver
+/// (PNG §13.12–13.16): grey below 8 bits scaled exactly by 255/(2^d−1), 16-bit kept, palette
+/// looked up, tRNS colour key → alpha 0 on exactly matching *unscaled* samples, palette
+/// entries beyond the tRNS table opaque.
+pub fn expected_rgba(spec: &PngSpec) -> Rgba {
+    let ch = channels(spec.color_type);
+    let d = spec.bit_depth;
+    let out_depth = if d == 16 { 16 } else { 8 };
+    let opaque: u16 = if d == 16 { 65535 } else { 255 };
+    let scale = |v: u16| -> u16 {
+        match d {
+            1 | 2 | 4 => (v as u32 * 255 / ((1u32 << d) - 1)) as u16,
+            _ => v,
+        }
+    };
+    let px = spec
+        .samples
+        .chunks(ch)
+        .map(|s| match spec.color_type {
+            0 => {
+                let a = if spec.trns == Some(Trns::Gray(s[0])) { 0 } else { opaque };
+                [scale(s[0]), scale(s[0]), scale(s[0]), a]
+            }
+            2 => {
+                let a = if spec.trns == Some(Trns::Rgb(s[0], s[1], s[2])) { 0 } else { opaque };
+                [s[0], s[1], s[2], a]
+            }
+            3 => {
+                let e = spec.palette[s[0] as usize];
+                let a = match &spec.trns {
+                    Some(Trns::Palette(t)) => t.get(s[0] as usize).copied().unwrap_or(255),
+                    _ => 255,
+                };
+                [e[0] as u16, e[1] as u16, e[2] as u16, a as u16]
+            }
+            4 => [s[0], s[0], s[0], s[1]],
+            6 => [s[0], s[1], s[2], s[3]],
+            _ => unreachable!(),
+        })
+        .collect();
+    Rgba { width: spec.width, height: spec.height, depth: out_depth, px }
+}
+
+/// Decode a PNG with the third-party `png` crate (palette, sub-byte grey and tRNS expanded,
+/// 16 bits kept) into the common RGBA form. This is the independent decoder of property C24.
+pub fn decode_with_png_crate(bytes: &[u8]) -> Result<Rgba, String> {
+    let mut dec = png::Decoder::new(std::io::Cursor::new(bytes));
+    dec.set_transformations(png::Transformations::EXPAND);
+    let mut reader = dec.read_info().map_err(|e| format!("png crate: {e}"))?;
+    let size = reader.output_buffer_size().ok_or("png crate: output size overflow")?;
+    let mut buf = vec![0u8; size];
+    let info = reader.next_frame(&mut buf).map_err(|e| format!("png crate: {e}"))?;
+    let depth = match info.bit_depth {
+        png::BitDepth::Eight => 8u8,
+        png::BitDepth::Sixteen => 16,
+        other => return Err(format!("png crate delivered depth {other:?} after EXPAND")),
+    };
+    let ch = match info.color_type {
+        png::ColorType::Grayscale => 1,
+        png::ColorType::GrayscaleAlpha => 2,
+        png::ColorType::Rgb => 3,
+        png::ColorType::Rgba => 4,
+        png::ColorType::Indexed => return Err("png crate delivered indexed after EXPAND".into()),
+    };
+    let (w, h) = (info.width as usize, info.height as usize);
+    let bps = depth as usize / 8;
+    let opaque: u16 = if depth == 16 { 65535 } else { 255 };
+    let mut px = Vec::with_capacity(w * h);
+    for y in 0..h {
+        let row = &buf[y * info.line_size..];
+        for x in 0..w {
+            let s = |c: usize| -> u16 {
+                let o = (x * ch + c) * bps;
+                if bps == 2 { u16::from_be_bytes([row[o], row[o + 1]]) } else { row[o] as u16 }
+            };
+            px.push(match ch {
+                1 => [s(0), s(0), s(0), opaque],
+                2 => [s(0), s(0), s(0), s(1)],
+                3 => [s(0), s(1), s(2), opaque],
+                _ => [s(0), s(1), s(2), s(3)],
+            });
+        }
+    }
+    Ok(Rgba { width: info.width, height: info.height, depth, px })
+}
+
+// ------------------------------------------------------------------------------------
+// Image XObject sample interpreter (ISO 32000-1 §8.9.5, §8.6.6.3 Indexed, §11.6.5.3 SMask)
+// ------------------------------------------------------------------------------------
+
+/// One decoded image plane set: colour as RGB plus the depth the samples were stored at.
+#[derive(Clone, Debug, PartialEq)]
+pub struct XImage {
+    pub width: u32,
+    pub height: u32,
+    /// 8 or 16: resolution of `rgb` values (16 only when /BitsPerComponent is 16)
+    pub colour_depth: u8,
+    pub rgb: Vec<[u16; 3]>,
+    /// raw sample values before /Decode, `ncomp` per pixel (needed for colour-key masks)
+    pub raw: Vec<u16>,
+    pub ncomp: usize,
+    pub bpc: u8,
+    /// description of the representation, for outcome classes: e.g. "DeviceRGB/8"
+    pub repr: String,
+    /// bytes of decoded stream data beyond what width × height × components need
+    pub surplus_bytes: usize,
+}
+
+/// Unpack `/BitsPerComponent`-bit samples: rows start on byte boundaries, samples MSB first
+/// (§8.9.3). Returns Err when the data is too short for `width × height × ncomp` samples.
+pub fn unpack_samples(data: &[u8], width: usize, height: usize, ncomp: usize, bpc: u8) -> Result<(Vec<u16>, usize), String> {
+    if ![1, 2, 4, 8, 16].contains(&bpc) {
+        return Err(format!("/BitsPerComponent {bpc} is not 1, 2, 4, 8 or 16"));
+    }
+    let row_bytes = (width * ncomp * bpc as usize).div_ceil(8);
+    let need = row_bytes * height;
+    if data.len() < need {
+        return Err(format!("sample data too short: {} bytes, {}x{}x{} at {} bits needs {}", data.len(), width, height, ncomp, bpc, need));
+    }
+    let mut out = Vec::with_capacity(width * height * ncomp);
+    for y in 0..height {
+        let row = &data[y * row_bytes..(y + 1) * row_bytes];
+        for i in 0..width * ncomp {
+            let v = match bpc {
+                16 => u16::from_be_bytes([row[2 * i], row[2 * i + 1]]),
+                8 => row[i] as u16,
+                _ => {
+                    let bit = i * bpc as usize;
+                    let shift = 8 - bpc as usize - bit % 8;
+                    ((row[bit / 8] >> shift) & ((1u8 << bpc) - 1)) as u16
+                }
+            };
+            out.push(v);
+        }
+    }
+    Ok((out, data.len() - need))
+}
+
+enum Cs {
+    Gray,
+    Rgb,
+    /// base is grey (1) or RGB (3); lookup bytes; hival
+    Indexed(usize, Vec<u8>, usize),
+}
+
+/// Interpret a colour space object whose references have already been resolved
+/// (`lookup_stream_data` supplies decoded data when the Indexed lookup is a stream).
+fn colour_space(cs: &Obj, lookup_stream_data: &dyn Fn(&Obj) -> Option<Vec<u8>>) -> Result<(Cs, String), String> {
+    let base = |o: &Obj| -> Option<usize> {
+        match o.as_name()? {
+            b"DeviceGray" | b"G" | b"CalGray" => Some(1),
+            b"DeviceRGB" | b"RGB" | b"CalRGB" => Some(3),
+            _ => None,
+        }
+    };
+    if let Some(n) = cs.as_name() {
+        return match n {
+            b"DeviceGray" | b"G" => Ok((Cs::Gray, "DeviceGray".into())),
+            b"DeviceRGB" | b"RGB" => Ok((Cs::Rgb, "DeviceRGB".into())),
+            other => Err(format!("colour space /{} not interpreted by the reference", String::from_utf8_lossy(other))),
+        };
+    }
+    let a = cs.as_array().ok_or("colour space is neither a name nor an array")?;
+    match a.first().and_then(|o| o.as_name()) {
+        Some(b"Indexed") | Some(b"I") if a.len() == 4 => {
+            let nb = base(&a[1]).ok_or("Indexed base colour space not interpreted by the reference")?;
+            let hival = a[2].as_int().filter(|h| (0..=255).contains(h)).ok_or("Indexed hival not an integer 0..=255")? as usize;
+            let lookup = match &a[3] {
+                Obj::Str(s) => s.clone(),
+                o @ Obj::Stream(_) => lookup_stream_data(o).ok_or("Indexed lookup stream undecodable")?,
+                _ => return Err("Indexed lookup is neither a string nor a stream".into()),
+            };
+            if lookup.len() < (hival + 1) * nb {
+                return Err(format!("Indexed lookup has {} bytes, hival {} needs {}", lookup.len(), hival, (hival + 1) * nb));
+            }
+            Ok((Cs::Indexed(nb, lookup, hival), format!("Indexed[{}]", if nb == 1 { "Gray" } else { "RGB" })))
+        }
+        Some(b"CalGray") => Ok((Cs::Gray, "CalGray".into())),
+        Some(b"CalRGB") => Ok((Cs::Rgb, "CalRGB".into())),
+        Some(other) => Err(format!("colour space [/{} …] not interpreted by the reference", String::from_utf8_lossy(other))),
+        None => Err("colour space array does not start with a name".into()),
+    }
+}
+
+fn decode_array(d: &Dict, n: usize) -> Result<Option<Vec<(f64, f64)>>, String> {
+    match d.get("Decode").or_else(|| d.get("D")) {
+        None | Some(Obj::Null) => Ok(None),
+        Some(o) => {
+            let a = o.as_array().ok_or("/Decode is not an array")?;
+            if a.len() != 2 * n {
+                return Err(format!("/Decode has {} numbers, expected {}", a.len(), 2 * n));
+            }
+            let v: Option<Vec<f64>> = a.iter().map(|x| x.as_num()).collect();
+            let v = v.ok_or("/Decode holds a non-number")?;
+            Ok(Some(v.chunks(2).map(|p| (p[0], p[1])).collect()))
+        }
+    }
+}
+
+/// Interpret the samples of an image XObject. `dict` = the stream dictionary with
+/// /ColorSpace (and anything inside it) already resolved to direct objects; `data` = the
+/// stream data after its filters.
+pub fn interpret_image(dict: &Dict, data: &[u8], lookup_stream_data: &dyn Fn(&Obj) -> Option<Vec<u8>>) -> Result<XImage, String> {
+    let int = |k: &str| -> Result<i64, String> { dict.get(k).and_then(|o| o.as_int()).ok_or(format!("image has no integer /{k}")) };
+    let (w, h) = (int("Width")?, int("Height")?);
+    if w <= 0 || h <= 0 {
+        return Err(format!("image dimensions {w}x{h}"));
+    }
+    let bpc = int("BitsPerComponent")?;
+    if !(1..=16).contains(&bpc) {
+        return Err(format!("/BitsPerComponent {bpc}"));
+    }
+    let bpc = bpc as u8;
+    let cs_obj = dict.get("ColorSpace").or_else(|| dict.get("CS")).ok_or("image has no /ColorSpace")?;
+    let (cs, cs_name) = colour_space(cs_obj, lookup_stream_data)?;
+    let ncomp = match cs {
+        Cs::Gray | Cs::Indexed(..) => 1,
+        Cs::Rgb => 3,
+    };
+    let (raw, surplus) = unpack_samples(data, w as usize, h as usize, ncomp, bpc)?;
+    let dec = decode_array(dict, ncomp)?;
+    let maxv = ((1u32 << bpc) - 1) as f64;
+    let colour_depth: u8 = if bpc == 16 && !matches!(cs, Cs::Indexed(..)) { 16 } else { 8 };
+    let full = if colour_depth == 16 { 65535.0 } else { 255.0 };
+    // component value in the output resolution (§8.9.5.2: Dmin + v·(Dmax−Dmin)/(2ⁿ−1))
+    let comp = |v: u16, c: usize| -> u16 {
+        match &dec {
+            None => {
+                if bpc == 8 || bpc == 16 {
+                    v
+                } else {
+                    (v as u32 * 255 / ((1u32 << bpc) - 1)) as u16
+                }
+            }
+            Some(d) => {
+                let (lo, hi) = d[c];
+                let f = (lo + v as f64 * (hi - lo) / maxv).clamp(0.0, 1.0);
+                (f * full).round() as u16
+            }
+        }
+    };
+    let mut rgb = Vec::with_capacity(raw.len() / ncomp);
+    for p in raw.chunks(ncomp) {
+        rgb.push(match &cs {
+            Cs::Gray => {
+                let g = comp(p[0], 0);
+                [g, g, g]
+            }
+            Cs::Rgb => [comp(p[0], 0), comp(p[1], 1), comp(p[2], 2)],
+            Cs::Indexed(nb, lookup, hival) => {
+                // default /Decode for Indexed is [0 2ⁿ−1]: the sample is the index
+                let idx = match &dec {
+                    None => p[0] as f64,
+                    Some(d) => d[0].0 + p[0] as f64 * (d[0].1 - d[0].0) / maxv,
+                };
+                // §8.6.6.3: out-of-range indices are clamped to 0..=hival
+                let idx = (idx.round().max(0.0) as usize).min(*hival);
+                if *nb == 1 {
+                    let g = lookup[idx] as u16;
+                    [g, g, g]
+                } else {
+                    [lookup[3 * idx] as u16, lookup[3 * idx + 1] as u16, lookup[3 * idx + 2] as u16]
+                }
+            }
+        });
+    }
+    Ok(XImage {
+        width: w as u32,
+        height: h as u32,
+        colour_depth,
+        rgb,
+        raw,
+        ncomp,
+        bpc,
+        repr: format!("{cs_name}/{bpc}{}", if dec.is_some() { "/Decode" } else { "" }),
+        surplus_bytes: surplus,
+    })
+}
+
+/// Alpha plane of a soft-mask image (§11.6.5.3): a DeviceGray image XObject; returns
+/// (depth 8|16, values). /Matte (pre-blended colour) is reported as an error because the
+/// colour would then need un-blending.
+pub fn interpret_smask(dict: &Dict, data: &[u8]) -> Result<(u32, u32, u8, Vec<u16>), String> {
+    if dict.get("Matte").is_some() {
+        return Err("/SMask with /Matte not interpreted by the reference".into());
+    }
+    match dict.get("ColorSpace").and_then(|o| o.as_name()) {
+        Some(b"DeviceGray") => {}
+        _ => return Err("/SMask colour space is not /DeviceGray".into()),
+    }
+    let x = interpret_image(dict, data, &|_| None)?;
+    Ok((x.width, x.height, x.colour_depth, x.rgb.iter().map(|p| p[0]).collect()))
+}
+
+/// Alpha from a colour-key /Mask array (§8.9.6.4): a pixel whose every raw component lies
+/// in [min, max] is not painted.
+pub fn colour_key_alpha(img: &XImage, mask: &[Obj]) -> Result<Vec<u16>, String> {
+    if mask.len() != 2 * img.ncomp {
+        return Err(format!("colour-key /Mask has {} numbers, expected {}", mask.len(), 2 * img.ncomp));
+    }
+    let m: Option<Vec<i64>> = mask.iter().map(|o| o.as_int()).collect();
+    let m = m.ok_or("colour-key /Mask holds a non-integer")?;
+    Ok(img
+        .raw
+        .chunks(img.ncomp)
+        .map(|p| {
+            let inside = p.iter().enumerate().all(|(c, &v)| (m[2 * c]..=m[2 * c + 1]).contains(&(v as i64)));
+            if inside { 0 } else { 255 }
+        })
+        .collect())
+}
+
+/// Alpha from an explicit stencil /Mask stream (§8.9.6.3): /ImageMask true, 1 bit per
+/// sample; with the default /Decode [0 1] a 0 sample is painted, a 1 sample is masked out.
+pub fn stencil_alpha(dict: &Dict, data: &[u8]) -> Result<(u32, u32, Vec<u16>), String> {
+    if dict.get("ImageMask") != Some(&Obj::Bool(true)) {
+        return Err("explicit /Mask stream is not an /ImageMask".into());
+    }
+    let w = dict.get("Width").and_then(|o| o.as_int()).ok_or("mask has no /Width")? as usize;
+    let h = dict.get("Height").and_then(|o| o.as_int()).ok_or("mask has no /Height")? as usize;
+    if let Some(b) = dict.get("BitsPerComponent").and_then(|o| o.as_int()) {
+        if b != 1 {
+            return Err("image mask /BitsPerComponent is not 1".into());
+        }
+    }
+    let inverted = match decode_array(dict, 1)? {
+        None => false,
+        Some(d) => d[0] == (1.0, 0.0),
+    };
+    let (raw, _) = unpack_samples(data, w, h, 1, 1)?;
+    Ok((w as u32, h as u32, raw.iter().map(|&v| if (v == 0) != inverted { 255 } else { 0 }).collect()))
+}
+
+// ------------------------------------------------------------------------------------
+// validation
+// ------------------------------------------------------------------------------------
+#[cfg(test)]
+mod tests {
+    use super::*;
+
+    fn mix(mut x: u64) -> u64 {
+        x ^= x >> 33;
+        x = x.wrapping_mul(0xff51_afd7_ed55_8ccd);
+        x ^= x >> 33;
+        x = x.wrapping_mul(0xc4ce_b9fe_1a85_ec53);
+        x ^ (x >> 33)
+    }
+
+    fn spec(ct: u8, d: u8, w: u32, h: u32, interlace: bool, filter: RowFilter, pattern: u8, trns: bool) -> PngSpec {
+        let ch = channels(ct);
+        let palette: Vec<[u8; 3]> = if ct == 3 {
+            let n = if pattern % 2 == 0 { 1usize << d } else { ((1usize << d) * 3 / 4).max(1) };
+            (0..n).map(|i| [(i * 37 + 11) as u8, (i * 101 + 3) as u8, 255u8.wrapping_sub((i * 13) as u8)]).collect()
+        } else {
+            vec![]
+        };
+        let lim: u64 = if ct == 3 { palette.len() as u64 } else if d == 16 { 65536 } else { 1 << d };
+        let mut samples = Vec::new();
+        for y in 0..h as u64 {
+            for x in 0..w as u64 {
+                for c in 0..ch as u64 {
+                    let v = match pattern {
+                        0 => (x * 3 + y * 5 + c * 7) * lim / 23 % lim,
+                        1 => if (x + y + c) % 2 == 0 { 0 } else { lim - 1 },
+                        _ => mix(x * 1_000_003 + y * 10_007 + c * 101 + d as u64) % lim,
+                    };
+                    samples.push(v as u16);
+                }
+            }
+        }
+        let trns = if !trns {
+            None
+        } else {
+            match ct {
+                0 => Some(Trns::Gray(samples[0])),
+                2 => Some(Trns::Rgb(samples[0], samples[1], samples[2])),
+                3 => Some(Trns::Palette((0..palette.len().div_ceil(2)).map(|i| (i * 85) as u8).collect())),
+                _ => None,
+            }
+        };
+        PngSpec { width: w, height: h, color_type: ct, bit_depth: d, interlace, palette, trns, filter, samples, idat_chunk: 0, level: 6, ancillary: false }
+    }
+
+    /// Raw (untransformed) decode by the `png` crate: packed scanlines exactly as encoded.
+    /// Returns (interlaced flag, PLTE bytes, scanline bytes).
+    fn raw_decode(bytes: &[u8]) -> (bool, Option<Vec<u8>>, Vec<u8>) {
+        let mut dec = png::Decoder::new(std::io::Cursor::new(bytes));
+        dec.set_transformations(png::Transformations::IDENTITY);
+        let mut r = dec.read_info().expect("read_info");
+        let mut buf = vec![0u8; r.output_buffer_size().unwrap()];
+        let fi = r.next_frame(&mut buf).expect("next_frame");
+        buf.truncate(fi.buffer_size());
+        let info = r.info();
+        (info.interlaced, info.palette.as_ref().map(|p| p.to_vec()), buf)
+    }
+
+    #[test]
+    fn crc_matches_known_vectors() {
+        assert_eq!(crc32(b"IEND"), 0xAE42_6082); // the CRC of every IEND chunk
+        assert_eq!(crc32(b"123456789"), 0xCBF4_3926); // the standard check value
+    }
+
+    #[test]
+    fn every_pair_size_filter_interlace_roundtrips_through_the_png_crate() {
+        let sizes = [(1, 1), (1, 2), (3, 1), (7, 3), (9, 2), (8, 8), (17, 5), (33, 9)];
+        let filters = [
+            RowFilter::Fixed(0), RowFilter::Fixed(1), RowFilter::Fixed(2), RowFilter::Fixed(3), RowFilter::Fixed(4),
+            RowFilter::Cycle(1), RowFilter::MinSum,
+        ];
+        let mut n = 0;
+        for &(ct, d) in &VALID_PAIRS {
+            for &(w, h) in &sizes {
+                for interlace in [false, true] {
+                    for f in &filters {
+                        for pattern in 0..3u8 {
+                            for trns in [false, true] {
+                                if trns && (ct == 4 || ct == 6) {
+                                    continue;
+                                }
+                                let s = spec(ct, d, w, h, interlace, f.clone(), pattern, trns);
+                                let bytes = encode(&s);
+                                // 1. raw scanlines identical (de-interlaced by the png crate)
+                                let (il, plte, raw) = raw_decode(&bytes);
+                                let want_raw: Vec<u8> = packed_rows(&s).concat();
+                                assert_eq!(raw, want_raw, "raw samples ct={ct} d={d} {w}x{h} il={interlace} f={f:?} p={pattern}");
+                                assert_eq!(il, interlace);
+                                if ct == 3 {
+                                    let p: Vec<u8> = s.palette.iter().flatten().copied().collect();
+                                    assert_eq!(plte, Some(p));
+                                }
+                                // 2. expanded RGBA equals the specification-derived expectation
+                                let got = decode_with_png_crate(&bytes).expect("decode");
+                                assert_eq!(got, expected_rgba(&s), "rgba ct={ct} d={d} {w}x{h} il={interlace} f={f:?} p={pattern} trns={trns}");
+                                n += 1;
+                            }
+                        }
+                    }
+                }
+            }
+        }
+        assert!(n > 8000, "{n}");
+    }
+
+    #[test]
+    fn filter_types_are_the_ones_asked_for() {
+        // inflate the IDAT ourselves and look at the filter bytes
+        for f in 0..5u8 {
+            let s = spec(2, 8, 7, 3, false, RowFilter::Fixed(f), 2, false);
+            let bytes = encode(&s);
+            let idat = idat_payload(&bytes);
+            let raw = crate::filters::flate_decode(&idat).unwrap();
+            let stride = 1 + 7 * 3;
+            assert_eq!(raw.len(), 3 * stride);
+            for y in 0..3 {
+                assert_eq!(raw[y * stride], f);
+            }
+        }
+        let s = spec(0, 8, 4, 7, false, RowFilter::Cycle(2), 2, false);
+        let raw = crate::filters::flate_decode(&idat_payload(&encode(&s))).unwrap();
+        for y in 0..7 {
+            assert_eq!(raw[y * 5] as usize, (y + 2) % 5);
+        }
+    }
+
+    fn idat_payload(png: &[u8]) -> Vec<u8> {
+        let mut pos = 8;
+        let mut out = Vec::new();
+        while pos < png.len() {
+            let len = u32::from_be_bytes(png[pos..pos + 4].try_into().unwrap()) as usize;
+            if &png[pos + 4..pos + 8] == b"IDAT" {
+                out.extend_from_slice(&png[pos + 8..pos + 8 + len]);
+            }
+            pos += 12 + len;
+        }
+        out
+    }
+
+    #[test]
+    fn adam7_pass_geometry_of_small_images() {
+        // 1x1: only pass 1 exists: one scanline of 1 pixel → 2 raw bytes for 8-bit grey
+        let s = spec(0, 8, 1, 1, true, RowFilter::Fixed(0), 0, false);
+        assert_eq!(crate::filters::flate_decode(&idat_payload(&encode(&s))).unwrap().len(), 2);
+        // 3x1 8-bit grey: pass 1 (x=0), pass 4 (x=2), pass 6 (x=1) → three 1-pixel rows = 6 bytes
+        let s = spec(0, 8, 3, 1, true, RowFilter::Fixed(0), 0, false);
+        assert_eq!(crate::filters::flate_decode(&idat_payload(&encode(&s))).unwrap().len(), 6);
+        // 8x8 1-bit grey: passes have 1,1,2,2x2,4x2,4x4,8x4 pixels → rows 1,1,1,2,2,4,4 each 1 byte + filter byte
+        let s = spec(0, 1, 8, 8, true, RowFilter::Fixed(0), 1, false);
+        assert_eq!(crate::filters::flate_decode(&idat_payload(&encode(&s))).unwrap().len(), (1 + 1 + 1 + 2 + 2 + 4 + 4) * 2);
+    }
+
+    #[test]
+    fn idat_split_levels_and_ancillary_chunks_do_not_change_the_pixels() {
+        for &(ct, d) in &VALID_PAIRS {
+            for (idat, level, anc) in [(1, 6, false), (7, 0, true), (0, 9, true), (3, 1, false)] {
+                let mut s = spec(ct, d, 9, 5, d % 2 == 0, RowFilter::Cycle(0), 2, ct < 4);
+                s.idat_chunk = idat;
+                s.level = level;
+                s.ancillary = anc;
+                let bytes = encode(&s);
+                assert_eq!(decode_with_png_crate(&bytes).unwrap(), expected_rgba(&s));
+                if idat == 1 {
+                    assert!(bytes.windows(4).filter(|w| w == b"IDAT").count() > 5);
+                }
+            }
+        }
+    }
+
+    #[test]
+    fn trns_near_miss_stays_opaque() {
+        // 16-bit RGB colour key: a pixel differing only in a low byte must stay opaque
+        let mut s = spec(2, 16, 2, 1, false, RowFilter::Fixed(0), 0, false);
+        s.samples = vec![0x1234, 0x5678, 0x9ABC, 0x1234, 0x5678, 0x9ABD];
+        s.trns = Some(Trns::Rgb(0x1234, 0x5678, 0x9ABC));
+        let got = decode_with_png_crate(&encode(&s)).unwrap();
+        assert_eq!(got.px[0][3], 0);
+        assert_eq!(got.px[1][3], 65535);
+        assert_eq!(got, expected_rgba(&s));
+    }
+
+    // ---- image XObject interpreter
+
+    fn d(entries: Vec<(&str, Obj)>) -> Dict {
+        match Obj::dict(entries) {
+            Obj::Dict(d) => d,
+            _ => unreachable!(),
+        }
+    }
+
+    #[test]
+    fn interpreter_follows_iso_32000_sample_layout() {
+        // 3x2 DeviceGray at 2 bits: rows padded to a byte: samples 0,1,2 | 3,2,1
+        let dict = d(vec![("Width", Obj::Int(3)), ("Height", Obj::Int(2)), ("BitsPerComponent", Obj::Int(2)), ("ColorSpace", Obj::name("DeviceGray"))]);
+        let x = interpret_image(&dict, &[0b00_01_10_00, 0b11_10_01_00], &|_| None).unwrap();
+        assert_eq!(x.rgb.iter().map(|p| p[0]).collect::<Vec<_>>(), vec![0, 85, 170, 255, 170, 85]);
+        assert_eq!(x.colour_depth, 8);
+        // same with /Decode [1 0]
+        let mut d2 = dict.clone();
+        d2.set("Decode", Obj::Array(vec![Obj::Int(1), Obj::Int(0)]));
+        let x = interpret_image(&d2, &[0b00_01_10_00, 0b11_10_01_00], &|_| None).unwrap();
+        assert_eq!(x.rgb.iter().map(|p| p[0]).collect::<Vec<_>>(), vec![255, 170, 85, 0, 85, 170]);
+        // too short
+        assert!(interpret_image(&dict, &[0], &|_| None).is_err());
+        // 1x1 RGB 16 bits
+        let dict = d(vec![("Width", Obj::Int(1)), ("Height", Obj::Int(1)), ("BitsPerComponent", Obj::Int(16)), ("ColorSpace", Obj::name("DeviceRGB"))]);
+        let x = interpret_image(&dict, &[0x12, 0x34, 0x56, 0x78, 0x9a, 0xbc, 0xff], &|_| None).unwrap();
+        assert_eq!((x.colour_depth, x.rgb[0], x.surplus_bytes), (16, [0x1234, 0x5678, 0x9abc], 1));
+        // Indexed, 4-bit, 3 pixels wide, hival 2, index 7 clamps to hival
+        let cs = Obj::Array(vec![Obj::name("Indexed"), Obj::name("DeviceRGB"), Obj::Int(2), Obj::str(&[1, 2, 3, 4, 5, 6, 7, 8, 9])]);
+        let dict = d(vec![("Width", Obj::Int(3)), ("Height", Obj::Int(1)), ("BitsPerComponent", Obj::Int(4)), ("ColorSpace", cs)]);
+        let x = interpret_image(&dict, &[0x20, 0x70], &|_| None).unwrap();
+        assert_eq!(x.rgb, vec![[7, 8, 9], [1, 2, 3], [7, 8, 9]]);
+        // colour key on raw samples
+        let dict = d(vec![("Width", Obj::Int(2)), ("Height", Obj::Int(1)), ("BitsPerComponent", Obj::Int(8)), ("ColorSpace", Obj::name("DeviceRGB"))]);
+        let x = interpret_image(&dict, &[1, 2, 3, 1, 2, 4], &|_| None).unwrap();
+        let key: Vec<Obj> = [1, 1, 2, 2, 3, 3].iter().map(|&v| Obj::Int(v)).collect();
+        assert_eq!(colour_key_alpha(&x, &key).unwrap(), vec![0, 255]);
+        // stencil mask: 0 paints
+        let dict = d(vec![("Width", Obj::Int(3)), ("Height", Obj::Int(1)), ("ImageMask", Obj::Bool(true))]);
+        assert_eq!(stencil_alpha(&dict, &[0b010_00000]).unwrap().2, vec![255, 0, 255]);
+    }
+
+    /// The interpreter against the `png` crate: a PNG's IDENTITY-decoded scanlines have the
+    /// same layout as PDF image samples, so feeding them (with the matching /ColorSpace)
+    /// must reproduce the EXPAND-decoded pixels.
+    #[test]
+    fn interpreter_agrees_with_png_crate_on_png_scanlines() {
+        for &(ct, dpt) in &VALID_PAIRS {
+            if ct == 4 || ct == 6 {
+                continue;
+            }
+            for &(w, h) in &[(1u32, 1u32), (3, 1), (7, 3), (9, 2)] {
+                let s = spec(ct, dpt, w, h, false, RowFilter::Fixed(4), 2, false);
+                let bytes = encode(&s);
+                let (_, _, raw) = raw_decode(&bytes);
+                let cs = match ct {
+                    0 => Obj::name("DeviceGray"),
+                    2 => Obj::name("DeviceRGB"),
+                    _ => Obj::Array(vec![
+                        Obj::name("Indexed"),
+                        Obj::name("DeviceRGB"),
+                        Obj::Int(s.palette.len() as i64 - 1),
+                        Obj::str(&s.palette.iter().flatten().copied().collect::<Vec<u8>>()),
+                    ]),
+                };
+                let dict = d(vec![("Width", Obj::Int(w as i64)), ("Height", Obj::Int(h as i64)), ("BitsPerComponent", Obj::Int(dpt as i64)), ("ColorSpace", cs)]);
+                let x = interpret_image(&dict, &raw, &|_| None).unwrap();
+                let want = decode_with_png_crate(&bytes).unwrap();
+                assert_eq!(x.colour_depth, want.depth);
+                assert_eq!(x.rgb, want.px.iter().map(|p| [p[0], p[1], p[2]]).collect::<Vec<_>>(), "ct={ct} d={dpt} {w}x{h}");
+            }
+        }
+    }
+}
